@@ -263,8 +263,10 @@ struct Value {
     }
 
     Value &operator=(ObjectT &&obj) noexcept {
+        ObjectT n_obj{Memory::Move(obj)}; // Take it out first: it can be a member of this value.
+
         reset();
-        object_ = Memory::Move(obj);
+        object_ = Memory::Move(n_obj);
         setTypeToObject();
 
         return *this;
@@ -281,8 +283,10 @@ struct Value {
     }
 
     Value &operator=(ArrayT &&arr) noexcept {
+        ArrayT n_arr{Memory::Move(arr)}; // Take it out first: it can be a member of this value.
+
         reset();
-        array_ = Memory::Move(arr);
+        array_ = Memory::Move(n_arr);
         setTypeToArray();
 
         return *this;
@@ -299,8 +303,10 @@ struct Value {
     }
 
     Value &operator=(StringT &&str) noexcept {
+        StringT n_str{Memory::Move(str)}; // Take it out first: it can be a member of this value.
+
         reset();
-        string_ = Memory::Move(str);
+        string_ = Memory::Move(n_str);
         setTypeToString();
 
         return *this;
@@ -420,12 +426,18 @@ struct Value {
 
     inline void operator+=(Value &&val) {
         if (isObject() && val.isObject()) {
-            object_ += Memory::Move(val.object_);
+            // The source can be a member of this object: empty it before the merge relocates the members.
+            ObjectT src{Memory::Move(val.object_)};
             val.setTypeToUndefined();
+            object_ += Memory::Move(src);
         } else {
             if (!isArray()) {
+                // Becoming an array releases the old content: take the source out first, it can be part of it.
+                Value tmp{Memory::Move(val)};
                 reset();
                 setTypeToArray();
+                array_ += Memory::Move(tmp);
+                return;
             }
 
             array_ += Memory::Move(val);
@@ -437,8 +449,12 @@ struct Value {
             object_ += val.object_;
         } else {
             if (!isArray()) {
+                // Becoming an array releases the old content: copy the source first, it can be part of it.
+                Value tmp{val};
                 reset();
                 setTypeToArray();
+                array_ += Memory::Move(tmp);
+                return;
             }
 
             array_ += val;
@@ -1031,14 +1047,17 @@ struct Value {
             return;
         }
 
+        // Take the source out first: it can be an item of this value, and appending relocates the items.
+        Value src{Memory::Move(val)};
+
         if (isUndefined()) {
             reset();
             setTypeToArray();
         }
 
-        if (isArray() && val.isArray()) {
-            Value       *src_val = val.array_.Storage();
-            const Value *end     = val.array_.End();
+        if (isArray() && src.isArray()) {
+            Value       *src_val = src.array_.Storage();
+            const Value *end     = src.array_.End();
 
             while (src_val < end) {
                 if (!(src_val->isUndefined())) {
@@ -1047,11 +1066,9 @@ struct Value {
 
                 ++src_val;
             }
-        } else if (isObject() && val.isObject()) {
-            object_ += Memory::Move(val.object_);
+        } else if (isObject() && src.isObject()) {
+            object_ += Memory::Move(src.object_);
         }
-
-        val.Reset();
     }
 
     void Merge(const Value &val) {
